@@ -11,6 +11,7 @@ import (
 	"testing"
 	"time"
 
+	"gosrc.io/xmpp/stanza"
 	"vfkit"
 )
 
@@ -27,6 +28,8 @@ type vfC11Case struct {
 	Conns []vfC11Conn `json:"conns"`
 }
 
+func (s *vfC11Seen) resumeSeen() bool { return s != nil && s.resume != nil }
+
 type vfC11Seen struct {
 	resume       *vfElem
 	bind         bool
@@ -36,6 +39,8 @@ type vfC11Seen struct {
 	err          string
 	bindRefused  bool
 	enableFailed bool
+	sentBase     int // stanzas the server had counted on this stream-managed session before the three new ones
+	ackedH       int
 }
 
 func vfC11Run(run *vfkit.Run, cs *vfC11Case) {
@@ -48,6 +53,8 @@ func vfC11Run(run *vfkit.Run, cs *vfC11Case) {
 	for i := range connDone {
 		connDone[i] = make(chan struct{})
 	}
+	lastAcked := new(int)   // h of the last <a/> the server sent on the current stream-managed session
+	serverCount := new(int) // stanzas the server has counted on it
 	peer := vfNewPeer(func(pc *vfPeerConn) {
 		k := pc.N
 		if k >= n {
@@ -90,7 +97,7 @@ func vfC11Run(run *vfkit.Run, cs *vfC11Case) {
 				sn.resume = &ec
 				switch sc.Reply {
 				case "resumed":
-					pc.Send(fmt.Sprintf("<resumed xmlns='%s' previd='%s' h='0'/>", vfNSSM, e.Attrs["previd"]))
+					pc.Send(fmt.Sprintf("<resumed xmlns='%s' previd='%s' h='%d'/>", vfNSSM, e.Attrs["previd"], *lastAcked))
 					resumedOK = true
 					sn.done = "resumed"
 					break loop
@@ -150,8 +157,35 @@ func vfC11Run(run *vfkit.Run, cs *vfC11Case) {
 			sn.done = "aborted"
 			return
 		}
+		if sn.done == "bound" {
+			*serverCount, *lastAcked = 0, 0
+			if k == 0 {
+				*serverCount = 1 // the initial presence
+			}
+		}
+		sn.sentBase = *serverCount
 		_ = resumedOK
+		// the application sends three stanzas on every established session; the server acknowledges the first of
+		// them (and the initial presence, if this session had one), so that the held stanzas no longer start at number 1
+		pc.idle = 1500 * time.Millisecond
+		outSeen := 0
+		for outSeen < 3 {
+			e, err := pc.Next()
+			if err != nil {
+				pc.Restart() // silence: the connection attempt failed on the client side after all
+				break
+			}
+			if e.Is("", "message") && strings.HasPrefix(e.Attrs["id"], "out-") {
+				outSeen++
+			}
+		}
 		pc.idle = 0
+		*serverCount += outSeen
+		if outSeen == 3 && sc.SMAdv {
+			sn.ackedH = sn.sentBase + 1
+			*lastAcked = sn.ackedH
+			pc.Send(fmt.Sprintf("<a xmlns='%s' h='%d'/>", vfNSSM, sn.ackedH))
+		}
 		// traffic on the established session, then a synchronised cut
 		var sb strings.Builder
 		for i := 0; i < sc.Stanzas; i++ {
@@ -197,10 +231,31 @@ func vfC11Run(run *vfkit.Run, cs *vfC11Case) {
 			}
 		}
 		discBefore := obs.CountState(StateDisconnected)
+		var heldBefore []string
 		if k == 0 {
 			cerr = c.Connect()
 		} else {
+			vfWaitUntil(5*time.Second, func() bool { return !vfRouterBusy(c.router) })
+			if c.Session != nil {
+				heldBefore, _ = vfQueueTexts(c)
+			}
 			cerr = c.Resume()
+			if cerr == nil && c.Session != nil {
+				heldAfter, _ := vfQueueTexts(c)
+				if seen[k].resumeSeen() && sc.Reply == "resumed" && !unknownState && !vfSameStrs(heldBefore, heldAfter) {
+					run.Violation("C11/held-stanzas-not-kept-on-resume", fmt.Sprintf("connection %d: the server confirmed the resumption; held before: %s, held after: %s", k, vfClipList(heldBefore), vfClipList(heldAfter)), cs)
+					go c.Disconnect()
+					return
+				}
+				if sc.Reply == "resumed" && len(heldBefore) > 0 {
+					run.Count("held_stanzas_compared_across_resume", 1)
+				}
+			}
+		}
+		if cerr == nil {
+			for i := 0; i < 3; i++ {
+				c.Send(stanza.Message{Attrs: stanza.Attrs{Id: fmt.Sprintf("out-%d-%d", k, i), To: "x@y"}, Body: "b"})
+			}
 		}
 		select {
 		case <-connDone[k]:
